@@ -115,5 +115,16 @@ Proof.
   - (* explist *) intros ts Hb. unfold s_explist. auto_tot.
   - (* table *) intros ts Hb. unfold s_table. auto_tot.
   - (* fields *) intros ts Hb. unfold s_fields. auto_tot.
-  - (* field *) intros ts Hb. unfold s_field. auto_tot.
+  - (* field *) intros ts Hb. unfold s_field.
+    assert (Hdef : okr (bind (r_exp P ts) (fun r =>
+              match snd r with
+              | TAssign :: ts1 =>
+                match fst r with
+                | EName k => bind (r_exp P ts1) (fun r2 => Ok ((FKey, EStr k, fst r2, false), snd r2))
+                | _ => Err (snd r)
+                end
+              | ts1 => Ok ((FPos, ENil, fst r, false), ts1)
+              end)) ts).
+    { call. destruct l as [|t l]; [leaf|]. destruct t; try leaf. destruct e; try leaf. auto_tot. }
+    destruct ts as [|t ts']; [exact Hdef|]. destruct t; try exact Hdef. auto_tot.
 Qed.
